@@ -16,7 +16,7 @@ type vpToken struct {
 	text        string
 	user        string
 	admin       bool
-	tLo, tHi    int64
+	tLo, tHi    time.Time // clock readings just before and just after issuing
 	nonce, ctxt []byte
 }
 
@@ -25,9 +25,9 @@ func vpIssue(f *webSessionFactory, label string) vpToken {
 }
 
 func vpIssueAs(f *webSessionFactory, u string, adm bool) vpToken {
-	lo := time.Now().Unix()
+	lo := time.Now()
 	st, _, s := f.Generate(u, adm)
-	hi := time.Now().Unix()
+	hi := time.Now()
 	vpAssert("generate-ok", st == http.StatusOK)
 	t := vpToken{text: s, user: u, admin: adm, tLo: lo, tHi: hi}
 	t.nonce, t.ctxt, _ = vpDecodeToken(s)
@@ -125,9 +125,9 @@ func VP_C07_IssuedOnly() {
 		}
 		s = t1.text[:strings.IndexByte(t1.text, ':')+1] + base64.URLEncoding.EncodeToString(c2)
 	}
-	cLo := time.Now().Unix()
+	cLo := time.Now()
 	r := vpCheck(fa, s)
-	cHi := time.Now().Unix()
+	cHi := time.Now()
 	n, c, ok := vpDecodeToken(s)
 	is1 := ok && vpBytesEq(n, t1.nonce) && vpBytesEq(c, t1.ctxt)
 	is2 := ok && vpBytesEq(n, t2.nonce) && vpBytesEq(c, t2.ctxt)
@@ -136,10 +136,13 @@ func VP_C07_IssuedOnly() {
 	a1 := vpAnd(accepted, is1)
 	a2 := vpAnd(accepted, vpAnd(is2, !is1))
 	vpAssert("accepted-identity-is-the-issued-one", vpAnd(vpImp(a1, r.user == t1.user && r.admin == t1.admin), vpImp(a2, r.user == t2.user && r.admin == t2.admin)))
-	vpAssert("accepted-only-within-lifetime", vpAnd(vpImp(a1, cLo-t1.tHi <= vpLifetime+1), vpImp(a2, cLo-t2.tHi <= vpLifetime+1)))
-	// (user names containing ':' are not schema-valid; such tokens are never accepted at all)
-	vpAssert("fresh-issued-token-is-accepted", vpImp(vpAnd(vpAnd(is1, strings.IndexByte(t1.user, ':') < 0), cHi-t1.tLo <= vpLifetime-1), accepted))
-	vpAssert("expired-token-is-rejected", vpImp(vpAnd(is1, cLo-t1.tHi >= vpLifetime+2), !accepted))
+	// exact at clock resolution: the token's age at the check is at least cLo - tHi and at most cHi - tLo
+	const life = vpLifetime * time.Second
+	vpAssert("accepted-only-within-lifetime", vpAnd(vpImp(a1, cLo.Sub(t1.tHi) <= life), vpImp(a2, cLo.Sub(t2.tHi) <= life)))
+	// (user names containing ':' are not schema-valid; such tokens are never accepted at all;
+	// the token carries whole seconds, so up to one second of the lifetime may be lost)
+	vpAssert("fresh-issued-token-is-accepted", vpImp(vpAnd(vpAnd(is1, strings.IndexByte(t1.user, ':') < 0), cHi.Sub(t1.tLo) <= life-time.Second), accepted))
+	vpAssert("expired-token-is-rejected", vpImp(vpAnd(is1, cLo.Sub(t1.tHi) > life), !accepted))
 	vpCover("end")
 }
 
@@ -204,17 +207,18 @@ func VP_C07_PlaintextParser() {
 	nonce := vpBytes("nonce", 12)
 	ct := f.aesgcm.Seal(nil, nonce, []byte(plain), nil)
 	s := base64.URLEncoding.EncodeToString(nonce) + ":" + base64.URLEncoding.EncodeToString(ct)
-	cLo := time.Now().Unix()
+	cLo := time.Now()
 	r := vpCheck(f, s)
-	cHi := time.Now().Unix()
+	cHi := time.Now()
 	u, adm, ts, ok := refSessionPlain(plain)
 	accepted := r.status == http.StatusOK
 	vpAssert("no-panic", !r.panicked)
 	vpAssert("accepted-only-if-plaintext-wellformed", vpImp(accepted, ok))
 	ao := vpAnd(accepted, ok)
 	vpAssert("accepted-fields-are-the-plaintext-fields", vpImp(ao, r.user == u && r.admin == adm))
-	vpAssert("accepted-only-inside-the-time-window", vpImp(ao, vpAnd(cHi-ts >= 0, cLo-ts <= vpLifetime+1)))
-	vpAssert("wellformed-current-plaintext-accepted", vpImp(vpAnd(ok, vpAnd(cLo-ts >= 1, cHi-ts <= vpLifetime-1)), accepted))
+	stated := time.Unix(ts, 0)
+	vpAssert("accepted-only-inside-the-time-window", vpImp(ao, vpAnd(cHi.Sub(stated) >= 0, cLo.Sub(stated) <= vpLifetime*time.Second)))
+	vpAssert("wellformed-current-plaintext-accepted", vpImp(vpAnd(ok, vpAnd(cLo.Sub(stated) >= 0, cHi.Sub(stated) <= vpLifetime*time.Second)), accepted))
 	vpCover("end")
 }
 
